@@ -3,6 +3,7 @@
 STORE = {}
 LOG = []
 PASS_CONTEXT = [False]
+CLOCK = [0.0]  # simulated clock shared with mako.codegen.time (set by the harness)
 
 
 def __getattr__(name):
@@ -15,20 +16,31 @@ def __getattr__(name):
         def pass_context(self):
             return PASS_CONTEXT[0]
 
+        # entries older than the owning template's compilation (Cache.starttime) are stale: a recompiled
+        # template under the same id starts clean, as the Cache documentation describes
+        def _fresh(self, k):
+            e = STORE.get(k)
+            if e is not None and e[1] < self.cache.starttime:
+                del STORE[k]
+                return None
+            return e
+
         def get_or_create(self, key, creation_function, **kw):
             LOG.append(("get_or_create", self.cache.id, key, kw))
             k = (self.cache.id, key)
-            if k not in STORE:
-                STORE[k] = creation_function()
-            return STORE[k]
+            e = self._fresh(k)
+            if e is None:
+                e = STORE[k] = (creation_function(), CLOCK[0])
+            return e[0]
 
         def set(self, key, value, **kw):
             LOG.append(("set", self.cache.id, key, kw))
-            STORE[(self.cache.id, key)] = value
+            STORE[(self.cache.id, key)] = (value, CLOCK[0])
 
         def get(self, key, **kw):
             LOG.append(("get", self.cache.id, key, kw))
-            return STORE.get((self.cache.id, key))
+            e = self._fresh((self.cache.id, key))
+            return e[0] if e else None
 
         def invalidate(self, key, **kw):
             LOG.append(("invalidate", self.cache.id, key, kw))
